@@ -689,7 +689,16 @@ def r05_6(ctx):
         return
     tr = prog.traits.get("sonic_rs::format::Formatter")
     defaults = {m["name"]: m["id"] for m in tr["methods"] if m["has_default"]}
-    ctx.floor("R05.6", "Formatter methods overridden by PrettyFormatter", len(pim[0]["methods"]), 8)
+    ctx.floor("R05.6", "Formatter methods overridden by PrettyFormatter", len(pim[0]["methods"]), 4)
+    # the line-break flag: an opening bracket clears `has_value`, and it is the END of a value that sets it again - a value
+    # that is itself an empty container has cleared it in between, so setting it at the beginning of the value leaves the
+    # enclosing container without its closing line break (`{\n  "items": []}`)
+    for mname in ("end_array_value", "end_object_value"):
+        g = prog.fns.get(pim[0]["methods"].get(mname, ""))
+        sets = [] if g is None else [s_ for b, i, s_ in g.assigns() if [e[2] for e in s_["lhs"][1] if isinstance(e, list) and e[0] == "."][-1:] == ["has_value"] and s_["rv"]["k"] == "use" and op_int(s_["rv"]["op"]) == 1]
+        ctx.ob("R05.6", f"{mname}:sets-has_value", bool(sets), g.loc() if g else "src/format.rs",
+               f"PrettyFormatter::{mname} records that the container now has a value" if sets else
+               f"PrettyFormatter::{mname} does not set has_value: after a member that is an empty container the enclosing bracket is closed without its line break and indentation")
     strip = lambda bs: bytes(c for c in bs if c not in b" \n\r\t") if bs is not None else None
     for name, pid_ in sorted(pim[0]["methods"].items()):
         pf = prog.fns.get(pid_)
